@@ -117,31 +117,21 @@ func coqPay(size, fill int) string {
 
 // ---------- log capture ----------
 
+// capHandler swallows log records; only their NUMBER is kept (log wording is not behaviour)
 type capHandler struct {
-	mu   sync.Mutex
-	msgs []string
+	mu sync.Mutex
+	n  int
 }
 
 func (h *capHandler) Enabled(context.Context, slog.Level) bool { return true }
 func (h *capHandler) Handle(_ context.Context, r slog.Record) error {
 	h.mu.Lock()
-	h.msgs = append(h.msgs, r.Message)
+	h.n++
 	h.mu.Unlock()
 	return nil
 }
 func (h *capHandler) WithAttrs([]slog.Attr) slog.Handler { return h }
 func (h *capHandler) WithGroup(string) slog.Handler      { return h }
-func (h *capHandler) count(msg string) int {
-	h.mu.Lock()
-	defer h.mu.Unlock()
-	n := 0
-	for _, m := range h.msgs {
-		if m == msg {
-			n++
-		}
-	}
-	return n
-}
 
 func counterValue(reg *prometheus.Registry, name string) int {
 	mfs, err := reg.Gather()
@@ -371,8 +361,14 @@ func runChan(t *testing.T, c *ChanCase) (term string, viols []vh.Violation, tags
 						}
 					}
 				}
-				if r.logs.count("oversized gossip channel full") != d {
-					violate("drop-without-counter", fmt.Sprintf("%d drops logged, dropped counter = %d", r.logs.count("oversized gossip channel full"), d))
+				// drops are judged by the counter and by what the stub senders were handed, never by log text:
+				// whenever sends are not blocked the worker has drained the queue, so every oversized broadcast so
+				// far was either counted as dropped or taken by the worker (one peers() call per taken message)
+				r.mu.Lock()
+				open, taken := r.open, r.peersCalls
+				r.mu.Unlock()
+				if open && oversizeBcasts != d+taken {
+					violate("oversize-lost-silently", fmt.Sprintf("%d oversized broadcasts so far, %d dropped (counter), %d taken by the worker, queue drained", oversizeBcasts, d, taken))
 				}
 			}
 		}
